@@ -29,7 +29,11 @@ var c05SQL = []string{"", "1", "foo", "1 union select 1", "1' or '1'='1", "1 uni
 	"foo\" and bar", "1 group by 2", "1 or sleep(5)",
 	// pairs with the same fingerprint and token count but different whitelist verdicts (a memo keyed too coarsely confuses them)
 	"it' left join 'us", "x' into outfile '/tmp/x", "1 union", "2 union /*x*/", "foo --", "foo /*x*/", "1 --", "1 -- x", "1/*x*/", "1 #", "a' + 'b", "'a' + 'b'",
-	"sexy and 17", "sexy and 17<18", "1 and 1", "1 and 1=1", "x' and 'y", "x' and y", "1; if 1", "1; iF 1", "1 union select password from users where name like 'a%' and 1=1 -- comment comment comment"}
+	"sexy and 17", "sexy and 17<18", "1 and 1", "1 and 1=1", "x' and 'y", "x' and y", "1; if 1", "1; iF 1",
+	// one input per lexical construct (a shared scratch buffer in any lexer needs that lexer to run)
+	"q'(a)' or 1=1", "q'[b]' or 1=1", "$tag$ x $tag$ or 1", "$$y$$ or 1", "1e+5 or 0x1f", "@@version, @`v`, @'v'", "u&'x' n'y' e'z' x'00' b'01'", "[a].[b] or 1", "1 or \\N",
+	// both quote kinds, SQLi in both quote readings with different fingerprints (an adaptive "try this reading first" hint changes the answer)
+	"' or 1=1 -- \" union select 1 --", "a\" or 1=1 --", "\" or 1=1 -- ' union select 1 --", "a' or 1=1 --", "1 union select password from users where name like 'a%' and 1=1 -- comment comment comment"}
 
 var c05XSS = []string{"", "<script>", "</a", "</a ", "<a href=javascript:alert(1)>", "onerror=x", "' onclick=1", "<!doctype", "<![CDATA[x]]>", "<%x%>",
 	"plain text", "</>", "<a/b=c>", "x' ", "\" href=data:x", "<!-- ` -->", "<b", "</script", "<svt>", "x", "<a href=&#106;avascript:x>", "onclick", "x onerror",
@@ -489,7 +493,7 @@ func evalSched(w *fw.W, scenario, cfgName string) {
 	}
 }
 
-var c05Collide = []string{"x:<!doctype", "s:1 union select 1", "s:1 union all select 1", "s:x' or 1=1 --", "s:foo\" and bar", "s:1 -- x", "s:",
+var c05Collide = []string{"x:<!doctype", "s:q'(a)' or 1=1", "s:q'[b]' or 1=1", "x:onerror=x", "s:1 union select 1", "s:1 union all select 1", "s:x' or 1=1 --", "s:foo\" and bar", "s:1 -- x", "s:",
 	"x:<script>", "x:</a", "x:<a href=javascript:alert(1)>", "x:' onclick=1", "x:onclick", "x:<a href=&#106;avascript:x>"}
 
 func init() {
@@ -498,7 +502,7 @@ func init() {
 		QuickS:    90,
 		ThoroughS: 900,
 		Rule: "E-HIST: breadth-first closure over package states (digest of everything reachable from every package-level variable, incl. pooled objects): from every discovered state every one of 48 operations (24 IsSQLi + 24 IsXSS inputs chosen to collide) is applied on the real code and its result compared with the fresh-process reference and the reference models; " +
-			"E-SCHED: every interleaving of 2 (thorough also 3) concurrent calls, for every unordered pair of a 13-input collision set, under the cooperative scheduler of the auto-instrumented build, preemption bound per config, checked for result = sequential reference, happens-before data races on package-level variables, deadlock and panics; " +
+			"E-SCHED: every interleaving of 2 (thorough also 3) concurrent calls, for every unordered pair of a 16-input collision set, under the cooperative scheduler of the auto-instrumented build, preemption bound per config, checked for result = sequential reference, happens-before data races on package-level variables, deadlock and panics; " +
 			"states = package states (E-HIST) + executed schedules (E-SCHED); non-trivial = a transition that changed package state / a scenario with more than one schedule",
 		Assumptions: []string{
 			"exploration is sequentially consistent and preemption-bounded (bounds in the phase descriptions); weak-memory reorderings are not modelled",
@@ -539,7 +543,7 @@ func init() {
 		},
 		Aux: racePass,
 		Phases: []fw.Phase{
-			{Name: "history-closure", Space: "BFS over package states x 72 operations, history depth <=3 (quick) / <=4 (thorough), state cap 400 / 4000", Share: 2, Serial: true,
+			{Name: "history-closure", Space: "BFS over package states x 85 operations, history depth <=3 (quick) / <=4 (thorough), state cap 400 / 4000", Share: 2, Serial: true,
 				Run: runHist, Eval: evalHist},
 			{Name: "long-history", Space: "one linear history of 700 (quick) / 6000 (thorough) calls cycling the 68 short operations in a rotating order; every result compared with the fresh-process reference", Share: 1, Serial: true,
 				Run: func(w *fw.W) {
@@ -583,7 +587,7 @@ func init() {
 					})
 					vrt.Restore()
 				}, Eval: evalPumped},
-			{Name: "schedules-2-threads", LongEval: true, Space: "91 unordered pairs of the 13-input collision set x 4 scheduler configs (thorough: 6): all interleavings within the preemption bound", Share: 5,
+			{Name: "schedules-2-threads", LongEval: true, Space: "136 unordered pairs of the 16-input collision set x 4 scheduler configs (thorough: 6): all interleavings within the preemption bound", Share: 5,
 				Run: func(w *fw.W) {
 					var items [][2]string
 					for name := range schedConfigs(w.Thorough()) {
@@ -596,9 +600,9 @@ func init() {
 					sortPairs(items)
 					w.Each(len(items), func(i int) { w.Item(items[i][0], items[i][1]) })
 				}, Eval: evalSched},
-			{Name: "schedules-2x2-calls", LongEval: true, Space: "2 threads x 2 calls each over a 6-input subset (history inside a thread + interleaving), sync+written-vars/b2 and function-entries/b1", Share: 2,
+			{Name: "schedules-2x2-calls", LongEval: true, Space: "2 threads x 2 calls each over an 8-input subset (history inside a thread + interleaving), sync+written-vars/b2 and function-entries/b1", Share: 2,
 				Run: func(w *fw.W) {
-					sub := []string{c05Collide[0], c05Collide[1], c05Collide[3], c05Collide[7], c05Collide[8], c05Collide[10]}
+					sub := []string{c05Collide[0], c05Collide[1], c05Collide[2], c05Collide[3], c05Collide[4], c05Collide[6], c05Collide[10], c05Collide[11]}
 					var items [][2]string
 					for _, name := range []string{"sync+written-vars/b2", "function-entries/b1"} {
 						for _, a := range sub {
@@ -609,9 +613,9 @@ func init() {
 					}
 					w.Each(len(items), func(i int) { w.Item(items[i][0], items[i][1]) })
 				}, Eval: evalSched},
-			{Name: "schedules-3-threads", LongEval: true, Space: "3 threads x 1 call over a 6-input subset, sync+written-vars/b2 and function-entries/b1", Share: 3, ThoroughOnly: true,
+			{Name: "schedules-3-threads", LongEval: true, Space: "3 threads x 1 call over an 8-input subset, sync+written-vars/b2 and function-entries/b1", Share: 3, ThoroughOnly: true,
 				Run: func(w *fw.W) {
-					sub := []string{c05Collide[0], c05Collide[1], c05Collide[3], c05Collide[7], c05Collide[8], c05Collide[10]}
+					sub := []string{c05Collide[0], c05Collide[1], c05Collide[2], c05Collide[3], c05Collide[4], c05Collide[6], c05Collide[10], c05Collide[11]}
 					var items [][2]string
 					for _, name := range []string{"sync+written-vars/b2", "function-entries/b1"} {
 						for i := range sub {
